@@ -354,7 +354,7 @@ func RunC18(cfg simrt.Config, o world.Opts) *world.Result {
 	if o.Trace {
 		cfg.KeepLabels = true
 	}
-	cfg.StepCap = 2000000
+	cfg.StepCap = 400000000 // 24 callers reading 64 KiB names byte by byte take tens of millions of steps; a livelock still ends here
 	s := simrt.New(cfg)
 	var lines []string
 	logf := func(f string, a ...interface{}) {
